@@ -2,6 +2,8 @@
 Everything here is an ASSUMED contract on a dependency."""
 import z3
 
+from pyvc.vals import INT as _INT
+
 from pyvc import lib
 from pyvc.state import Unsupported
 from pyvc.vals import (ANY, INT, STR, T, TList, V, Val, as_ref, fresh_name, uf, v_int, v_ref)
@@ -16,8 +18,12 @@ def df_attr(ex, st, obj, name, node):
         if name == 'index':
             r = uf('df_index', z3.IntSort(), z3.IntSort())(as_ref(obj))
             return v_ref(r, 'PdIndex')
-        if name in ('shape',):
-            return None
+        if name == 'shape':
+            # LIBSPEC-pd: df.shape == (number of rows, number of columns)
+            from pyvc.vals import v_tuple
+            nv = lib.pure_call(ex, st, 'df_nrows', [obj], {}, _INT)
+            mv = lib.pure_call(ex, st, 'df_ncols', [obj], {}, _INT)
+            return v_tuple([nv, mv])
     return None
 
 
@@ -32,3 +38,6 @@ def pd_method(ex, st, recv, name, args, kwargs, node):
         st.pc.append(z3.ForAll([j], Val.is_s(z3.Select(arr, j))))
         return st.new_list_sym(n, arr, STR)
     return None
+
+
+lib.PURE_LIB['df_nrows'] = _INT
